@@ -63,10 +63,12 @@ fn build_pool(rng: &mut StdRng) -> Pool {
                 for variant in 0..2 {
                     // two distinct messages per (sender, kind, view) so that "equal view" ties are exercised
                     let genesis: validator::GenesisHash = rng.gen();
-                    let v = validator::v2::View { genesis, epoch: validator::EpochNumber(0), number: validator::ViewNumber(view) };
+                    // chain and epoch are sender-chosen signed fields: the queue's rule speaks about sender, kind and view only
+                    let epoch = validator::EpochNumber([0u64, 0, 1, 2, 7, u64::MAX][rng.gen_range(0..6)]);
+                    let v = validator::v2::View { genesis, epoch, number: validator::ViewNumber(view) };
                     // justification whose view() == `view`: certificate for view-1 (views start at 1 for these kinds)
                     let just = |rng: &mut StdRng| -> ProposalJustification {
-                        let pv = validator::v2::View { genesis, epoch: validator::EpochNumber(0), number: validator::ViewNumber(view.saturating_sub(1)) };
+                        let pv = validator::v2::View { genesis, epoch, number: validator::ViewNumber(view.saturating_sub(1)) };
                         if rng.gen_bool(0.5) {
                             let mut q: CommitQC = rng.gen();
                             q.message.view = pv;
